@@ -19,7 +19,7 @@ def one(own_r, own_a, sizes, rng):
     from pynetdicom2 import asceprovider, pdu, dimsemessages as dm
     classes = ['1.2.840.10008.1.1']
     ts = ['1.2.840.10008.1.2']
-    ae = nd.make_entity([('scu', classes)], ts, own_r)
+    ae = nd.make_entity([('scu', classes)], ts, 32768 if own_r not in (32768, 0) else 8192)
     req = object.__new__(asceprovider.AssociationRequester)
     req.ae = ae
     req.max_pdu_length = own_r
@@ -190,8 +190,70 @@ def recv_case(own, peer_ann, ident_len):
             dict(own=own, peer_announced=peer_ann, incoming_pdu_length=sent_len[0], delivered=delivered, error=err))
 
 
+def maxlen_position_cases():
+    """A peer (another toolkit) whose user information does not list the Maximum Length sub-item FIRST - the standard
+    fixes no order for the sub-items - or omits it: the acceptor (accept) and the requestor (_request) must still find
+    the peer's announcement.  Known finding D24: both take `user_data[0]`."""
+    from pynetdicom2 import asceprovider, pdu, userdataitems
+    out = []
+    for order in ('impl-first', 'maxlen-last-of-three'):
+        subs = [userdataitems.ImplementationClassUIDSubItem('1.2.3.4'), userdataitems.MaximumLengthSubItem(4096)]
+        if order == 'maxlen-last-of-three':
+            subs.insert(1, userdataitems.ImplementationVersionNameSubItem('V1'))
+        # acceptor side
+        acc = object.__new__(asceprovider.AssociationAcceptor)
+        acc.ae = nd.StubAE({'1.2.840.10008.1.1': nd.served_service}, ['1.2.840.10008.1.2'])
+        acc.dul = impl.StubDul()
+        acc.max_pdu_length = 16384
+        acc.sop_classes_as_scp = {}
+        acc.accepted_contexts = {}
+        acc.remote_ae = b''
+        items = [pdu.ApplicationContextItem('1.2.840.10008.3.1.1.1'),
+                 pdu.PresentationContextItemRQ(1, pdu.AbstractSyntaxSubItem('1.2.840.10008.1.1'),
+                                               [pdu.TransferSyntaxSubItem('1.2.840.10008.1.2')]),
+                 pdu.UserInformationItem(subs)]
+        err = None
+        try:
+            acc.accept(pdu.AAssociateRqPDU.decode(pdu.AAssociateRqPDU('CALLED', 'CALLING', items).encode()))
+        except Exception as e:  # noqa
+            err = type(e).__name__
+        lim = acc.max_pdu_length if isinstance(acc.max_pdu_length, int) else -1
+        out.append(dict(side='acceptor', sub_item_order=order, peer_announced=4096, own=16384, error=err, limit_after=lim,
+                        ok=(err is None and lim == 4096)))
+        # requestor side: the same order in the peer's A-ASSOCIATE-AC
+        ae = nd.make_entity([('scu', ['1.2.840.10008.1.1'])], ['1.2.840.10008.1.2'], 16384)
+        req = object.__new__(asceprovider.AssociationRequester)
+        req.ae = ae
+        req.max_pdu_length = 16384
+        req.accepted_contexts = {}
+        req.association_established = False
+        req.context_def_list = ae.copy_context_def_list()
+        req.remote_ae = dict(address='127.0.0.1', port=104, aet='REMOTE')
+        req.sop_classes_as_scu = {}
+
+        def reply(rq, subs=subs):
+            ac_items = [pdu.ApplicationContextItem('1.2.840.10008.3.1.1.1'),
+                        pdu.PresentationContextItemAC(1, 0, pdu.TransferSyntaxSubItem('1.2.840.10008.1.2')),
+                        pdu.UserInformationItem(list(subs))]
+            return pdu.AAssociateAcPDU.decode(pdu.AAssociateAcPDU('REMOTE', 'LOCAL', ac_items).encode())
+        req.dul = nd.ReplyDul(reply)
+        err = None
+        try:
+            req.request()
+        except Exception as e:  # noqa
+            err = type(e).__name__
+        lim = req.max_pdu_length if isinstance(req.max_pdu_length, int) else -1
+        out.append(dict(side='requestor', sub_item_order=order, peer_announced=4096, own=16384, error=err, limit_after=lim,
+                        ok=(err is None and lim == 4096)))
+    return out
+
+
 def main(tier, seed):
     dec = common.Decision('C10', tier, seed)
+    # the known failure is the AttributeError; silently ignoring the peer's announcement would be another violation
+    dec.matchers['maxlen_not_first'] = lambda r: (r.get('kind') == 'peer-maximum-not-found' and
+                                                  r.get('error') == 'AttributeError' and
+                                                  r.get('sub_item_order') in ('impl-first', 'maxlen-last-of-three'))
     common.static_gate(dec, ['Properties/C10.v'], ['Proofs/NegotiationProofs.v', 'Proofs/DimseProofs.v'])
     rng = random.Random(seed)
     obs = []
@@ -219,6 +281,9 @@ def main(tier, seed):
     n_obl += n3
     n_ok += k3
     dec.obligations(n_obl, n_ok)
+    for r in maxlen_position_cases():
+        if not r['ok']:
+            dec.report(dict(r, kind='peer-maximum-not-found'))
     for i in f3['recv']:
         dec.report(dict(recv[i][1], kind='announced-maximum-not-received'))
     cov = dec.coverage
